@@ -54,6 +54,9 @@ STMTS = [
     ("print *, 'a 3\" pipe'; x = f(y)", {"f"}),
     ("print *, 'a long literal comes first' // 'call s(f(1))'", set()),
     ("print *, \"value of the function\", ' f(2) ', x", set()),
+    ("10  call s\n20  if (p(x)) call s(y)", {"s", "p"}),
+    ("dd(1) = y\n    x = dd(2) + ee(1, 2)", set()),
+    ("x = float(i) + amax1(x, y) + sngl(dble(y)) + alog10(x)", set()),
     ("x = extf(y)", {"extf"}),
     ("x = extg(y) + extf(x)", {"extf", "extg"}),
 ]
@@ -78,7 +81,7 @@ def program(stmts):
     funcs += "  function level(self, k) result(r)\n    class(logger) :: self\n    integer :: k\n    real :: r\n    r = 0.0\n  end function level\n"
     return ("module m\n  implicit none\n" + types + "contains\n" + funcs +
             "  subroutine driver()\n    real :: x, y, a(10), b(3,3)\n    real, allocatable :: c(:)\n    integer :: i, j, n\n    type(application) :: app\n"
-            "    REAL, EXTERNAL :: extf\n    real, external :: extg\n" + body +
+            "    REAL, EXTERNAL :: extf\n    real, external :: extg\n    dimension dd(5), ee(2, 3)\n" + body +
             "\n  end subroutine driver\nend module m\n"
             "function extf(v) result(r)\n  real :: v, r\n  r = v\nend function extf\nfunction extg(v) result(r)\n  real :: v, r\n  r = v\nend function extg\n")
 
